@@ -48,7 +48,7 @@ Arguments s x%string_scope.
 Fixpoint list_eqb {A} (eqb : A -> A -> bool) (a b : list A) : bool :=
   match a, b with
   | [], [] => true
-  | x :: a', y :: b' => eqb x y && list_eqb eqb a' b'
+  | x :: a', y :: b' => if eqb x y then list_eqb eqb a' b' else false   (* lazy under vm_compute *)
   | _, _ => false
   end.
 
